@@ -694,4 +694,62 @@ theorem rebuild_get (s : State) (hwf : WF s) (x y : Str) : get (rebuild s) x y =
   · have hno : ∀ v, ((norm x y).1, (norm x y).2, v) ∉ items s := fun v hv => hex ⟨v, hv⟩
     rw [h2 (fun v hv => hno v (List.mem_reverse.mp hv)), get_not_stored s hwf x y hno]
 
+/-! ### file framing -/
+
+theorem unframeAux_false (ls : List Str) : unframeAux false ls = ([], ls) := by
+  induction ls with
+  | nil => rfl
+  | cons l ls ih => simp [unframeAux, ih]
+
+/-- once a line that is not a comment has been seen, everything is handed to the csv reader, `#` or not -/
+theorem unframe_body (h : Str) (rest : List Str) (hh : isComment h = false) : unframe (h :: rest) = ([], h :: rest) := by
+  simp [unframe, unframeAux, hh, unframeAux_false]
+
+theorem unframe_frame (title metaLine : Str) (body : List Str)
+    (hbody : body = [] ∨ ∃ h rest, body = h :: rest ∧ isComment h = false) :
+    unframe (frame title metaLine body) = ([hash :: title ++ [lf], hash :: metaLine ++ [lf]], body) := by
+  have hc : ∀ t : Str, isComment (hash :: t ++ [lf]) = true := by intro t; simp [isComment]
+  have hb : unframeAux true body = ([], body) := by
+    rcases hbody with rfl | ⟨h, rest, rfl, hh⟩
+    · rfl
+    · exact unframe_body h rest hh
+  simp only [unframe, frame, unframeAux, hc, if_true, hb]
+
+theorem dropWhile_of_head {α} (p : α → Bool) (l : List α) (h : ∀ a ∈ l.head?, p a = false) : l.dropWhile p = l := by
+  cases l with
+  | nil => rfl
+  | cons a t => simp [List.dropWhile, h a (by simp)]
+
+theorem rstripNl_line (s : Str) (h10 : lf ∉ s) (h13 : cr ∉ s) : rstripNl (s ++ [lf]) = s := by
+  unfold rstripNl
+  have h1 : (s ++ [lf]).reverse = lf :: s.reverse := by simp
+  rw [h1]
+  have h2 : (lf :: s.reverse).dropWhile (fun c => c == lf || c == cr) = s.reverse.dropWhile (fun c => c == lf || c == cr) := by
+    simp [List.dropWhile]
+  rw [h2, dropWhile_of_head]
+  · simp
+  · intro a ha
+    have hmem : a ∈ s := by
+      have : a ∈ s.reverse := List.mem_of_mem_head? ha
+      exact List.mem_reverse.mp this
+    have ha10 : a ≠ lf := fun e => h10 (e ▸ hmem)
+    have ha13 : a ≠ cr := fun e => h13 (e ▸ hmem)
+    simp [ha10, ha13]
+
+/-- **The file round trip at the level of physical lines**: what `from_csv` takes for the header of a written file are
+exactly the two comment lines, the metadata decoded from them are the metadata written, and the csv reader receives exactly
+the lines the csv writer produced - whatever these lines begin with. -/
+theorem file_round_trip (forb : List Nat) (htab : TableOk forb = true) (m : Meta) (hm : MetaOk forb m) (title : Str)
+    (body : List Str) (hbody : body = [] ∨ ∃ h rest, body = h :: rest ∧ isComment h = false) :
+    ∃ s, encodeMeta forb m = .ok s ∧ (unframe (frame title s body)).2 = body ∧
+      parseMeta (unframe (frame title s body)).1 = .ok m := by
+  obtain ⟨s, henc, hdec, h10, h13⟩ := meta_round_trip forb htab m hm
+  refine ⟨s, henc, ?_, ?_⟩
+  · rw [unframe_frame title s body hbody]
+  · rw [unframe_frame title s body hbody]
+    have hlen : ¬ (hash :: s ++ [lf]).length < 2 := by simp
+    simp only [parseMeta, hlen, if_false]
+    have : (hash :: s ++ [lf]).drop 1 = s ++ [lf] := by simp
+    rw [this, rstripNl_line s h10 h13, hdec]
+
 end Hpv.Sim
